@@ -791,6 +791,7 @@ func (d *DataChannel) collectStats(collector *statsReportCollector) {
 func (d *DataChannel) setReadyState(r DataChannelState) bool {
 	for {
 		current := d.readyState.Load()
+		verifYield("dc.setstate.loaded", d)
 		if cur, ok := current.(DataChannelState); ok {
 			if cur == r {
 				return true
